@@ -65,6 +65,8 @@ def parseOpX (op : String) : Option Tab.OpX :=
   | "measx" => some (.measX (arg 0) (argB 1))
   | "measy" => some (.measY (arg 0) (argB 1))
   | "xmeas" => some (.xMeasGate (arg 0) (argB 1))
+  | "cy" => some (.cy (arg 0) (arg 1))
+  | "traceout" => some (.traceOut (natsOf '.' (parts.getD 1 "-")) ((parts.getD 2 "").toList.map (fun c => decide (c = '1'))))
   | _ => (parseOp op).map .base
 
 def branchOfX (t : Tab) : Tab.OpX → String
@@ -72,6 +74,8 @@ def branchOfX (t : Tab) : Tab.OpX → String
   | .measX q _ => if ((t.hGate q).pivot q).isSome then "measx:random" else "measx:det"
   | .xMeasGate q _ => if ((t.hGate q).pivot q).isSome then "xmeas:random" else "xmeas:det"
   | .measY q _ => if (((t.sdgGate q).hGate q).pivot q).isSome then "measy:random" else "measy:det"
+  | .cy _ _ => "gate2:cy"
+  | .traceOut _ _ => "trace_out_qubits"
 
 /-- one op of `tab.run`; ops are `name:arg:arg…` -/
 def stepOp (s : RunSt) (ops : String) : Except Err RunSt :=
@@ -120,8 +124,8 @@ def traceOut (a : Args) : String :=
   let t := tabOf a
   let pos := natsOf '.' (get a "pos")
   let os := (get a "os").toList.map (fun c => decide (c = '1'))
-  match t.traceOutQubits pos os with
-  | .ok t' => let t' := t'.norm; s!"ok {showTab t'} valid={b01 t'.isSymplectic}"
+  match t.applyOpX (.traceOut pos os) with
+  | .ok (t', _) => let t' := t'.norm; s!"ok {showTab t'} valid={b01 t'.isSymplectic}"
   | .error e => s!"err {e}"
 
 def mk (a : Args) : String :=
